@@ -244,6 +244,59 @@ def narrowing_family():
   return mods
 
 
+def call_family():
+  """One function or lambda called several times with arguments that are ==-equal (or hash alike) across types, in
+  both orders — True/1, False/0, 'a'/b'a', ()/[] — and with the same value twice; results used directly, wrapped and
+  through an operator; plus operators on a value that may be either constant."""
+  pairs = [("True", "1"), ("False", "0"), ("'a'", "b'a'"), ("1", "True"), ("0", "False"), ("b'a'", "'a'"), ("()", "[]"),
+           ("1", "1"), ("0.0", "0"), ("None", "False")]
+  mods = []
+  L = ["_L = [0, 0, 0]"]
+  for k, (a, b) in enumerate(pairs):
+    L += ["def cf%d(v):" % k, "  return v",
+          "cg%d = lambda v: [v]" % k,
+          "def ch%d(v, w=0):" % k, "  return (v, w)",
+          "ca%d = cf%d(%s)" % (k, k, a), "cb%d = cf%d(%s)" % (k, k, b), "cc%d = cf%d(%s)" % (k, k, a),
+          "cd%d = cg%d(%s)" % (k, k, a), "ce%d = cg%d(%s)" % (k, k, b),
+          "ci%d = ch%d(%s)" % (k, k, a), "cj%d = ch%d(%s, %s)" % (k, k, b, a), "ck%d = ch%d(%s, w=%s)" % (k, k, a, b),
+          "cm%d = (%s if len(_L) > 5 else %s)" % (k, a, b),
+          "cn%d = [cm%d, cm%d]" % (k, k, k),
+          "co%d = (cm%d, 1)" % (k, k)]
+    if a in ("True", "False", "1", "0") and b in ("True", "False", "1", "0"):
+      L += ["cp%d = cm%d & True" % (k, k), "cq%d = cm%d + 1" % (k, k), "cr%d = -cm%d" % (k, k)]
+  mods.append("\n".join(L) + "\n")
+  return mods
+
+
+def store_family():
+  """A container is stored into on one control-flow path only (an `if` without `else`, taken or not taken at run
+  time, or a helper that stores conditionally) and then read back with a constant subscript / key / attribute."""
+  mods = []
+  L = ["_L = [0, 0, 0]"]
+  k = 0
+  for cond in ("len(_L) > 5", "len(_L) > 1"):
+    for init, store, read in (("{'a': 1, 'b': None}", "%s['a'] = 'x'", "%s['a']"),
+                              ("{'a': 1}", "%s['n'] = 'x'", "%s.get('n')"),
+                              ("{'a': 1}", "%s.update({'a': 2.5})", "%s['a']"),
+                              ("[1, 2]", "%s[0] = 'x'", "%s[0]"),
+                              ("[1]", "%s.append('x')", "%s[-1]"),
+                              ("{1}", "%s.add('x')", "sorted(%s, key=str)[0]")):
+      k += 1
+      d = "sd%d" % k
+      L += ["%s = %s" % (d, init), "if %s:" % cond, "  " + store % d, "sr%d = %s" % (k, read % d),
+            "ss%d = list(%s.values()) if isinstance(%s, dict) else list(%s)" % (k, d, d, d)]
+      # the same through a helper that stores conditionally
+      h = "sh%d" % k
+      L += ["%s = %s" % (h, init), "def sf%d(c):" % k, "  if c:", "    " + store % h, "  return 0",
+            "sf%d(%s)" % (k, cond), "st%d = %s" % (k, read % h)]
+    # instance attribute stored on one path
+    k += 1
+    L += ["class SK%d:" % k, "  def __init__(self):", "    self.v = 1", "so%d = SK%d()" % (k, k), "if %s:" % cond,
+          "  so%d.v = 'x'" % k, "sv%d = so%d.v" % (k, k)]
+  mods.append("\n".join(L) + "\n")
+  return mods
+
+
 # --- oracle ---------------------------------------------------------------------------------------------------
 class Skip(Exception):
   pass
